@@ -208,6 +208,9 @@ def event_alpha(m):
     return ops
 
 
+TIE_OPS = ("notify", "notify_all", "set", "clear")
+
+
 def may_skip_settle(op):
     if op[0] == "wait":
         return not sh.needs_settle(op[1])
@@ -257,6 +260,10 @@ def shards(tier, seed):
     for b in range(nb):
         out.append({"kind": "exh", "cls": "event", "full": False, "bucket": b, "nb": nb, "maxlen": Le, "sync": False})
     out.append({"kind": "exh", "cls": "event", "full": False, "bucket": 0, "nb": 1, "maxlen": Le - 1, "sync": True})
+    nbt = 4 if tier == "quick" else 8
+    for b in range(nbt):
+        out.append({"kind": "exh", "cls": "cond", "full": False, "bucket": b, "nb": nbt, "maxlen": Lc - 1, "sync": False, "tie": True})
+    out.append({"kind": "exh", "cls": "event", "full": False, "bucket": 0, "nb": 1, "maxlen": Le - 1, "sync": False, "tie": True})
     k = 6 if tier == "quick" else 12
     n = 3000 if tier == "quick" else 300000
     for j in range(k):
@@ -274,14 +281,26 @@ def gen_cases(spec):
                 continue
             for hist in sh.leaves(alpha, mk(), p, spec["maxlen"]):
                 sync = tuple(i for i, op in enumerate(hist[:-1]) if may_skip_settle(op)) if spec["sync"] else ()
-                yield (cls, hist, sync)
+                if spec.get("tie"):
+                    if not any(hist[i][0] == "adv" and hist[i + 1][0] in TIE_OPS for i in range(len(hist) - 1)):
+                        continue
+                    yield (cls, hist, (), True)
+                else:
+                    yield (cls, hist, sync)
     else:
         rng = core.rng_for(spec["seed"], PROP, spec["j"])
         for _ in range(spec["n"]):
-            yield rand_history(rng, rng.choice(["cond", "event"]), rng.randint(4, spec["maxlen"]), rng.random() < 0.25)
+            h = rand_history(rng, rng.choice(["cond", "event"]), rng.randint(4, spec["maxlen"]), rng.random() < 0.25)
+            if rng.random() < 0.3 and not any(op[0] == "cancel" for op in h[1]):
+                h = (h[0], h[1], (), True)
+            yield h
 
 
 def directed_cases():
+    # a deadline and a notify in the same loop iteration (timer first): the timed-out waiter must not be counted
+    yield ("cond", (("wait", ("rel", 0)), ("wait", None), ("adv",), ("notify", 1)), (), True)
+    yield ("cond", (("wait", ("rel", 0)), ("wait", ("rel", 1)), ("wait", None), ("adv",), ("notify", 1), ("adv",), ("notify", 1)), (), True)
+    yield ("event", (("wait", ("rel", 0)), ("adv",), ("set",)), (), True)
     yield ("cond", (("wait", ("rel", 0)), ("wait", None), ("wait", None), ("adv",), ("notify", 2), ("notify", 1)), ())
     yield ("cond", (("burst", 100), ("wait", None), ("wait", ("zero",)), ("wait", None), ("notify", 1), ("notify_all",)), ())
     yield ("event", (("wait", ("rel", 0)), ("set",), ("clear",), ("wait", ("abs", 1)), ("adv",), ("adv",), ("set",)), (1,))
@@ -305,8 +324,10 @@ def name(s):
 
 
 async def _drive(case, ctx, lm, pos):
-    kind, ops, sync = case
+    kind, ops, sync = case[0], case[1], case[2]
+    tie_mode = len(case) > 3 and bool(case[3])
     sync = set(sync)
+    skip = set()
     loop = asyncio.get_event_loop()
     lm.attach_loop(loop)
     clock = sh.Clock()
@@ -354,9 +375,64 @@ async def _drive(case, ctx, lm, pos):
                 ctx.count("event_waiter_set_not_observable")
         return True
 
+    def real_sync(step):
+        if step[0] == "notify":
+            obj.notify(step[1])
+        elif step[0] == "notify_all":
+            obj.notify_all()
+        elif step[0] == "set":
+            obj.set()
+        elif step[0] == "clear":
+            obj.clear()
+
+    def model_sync(step):
+        if step[0] == "notify":
+            stats["woken"] += m.notify(step[1])
+        elif step[0] == "notify_all":
+            stats["woken"] += m.notify(len(m.w))
+        elif step[0] == "set":
+            stats["woken"] += m.set()
+        elif step[0] == "clear":
+            m.flag = False
+
     for i, step in enumerate(ops):
         k = step[0]
         pos[:] = [i, step]
+        if i in skip:
+            continue
+        if (tie_mode and k == "adv" and i + 1 < len(ops) and ops[i + 1][0] in TIE_OPS
+                and sum(1 for x in m.w if x[1] == "P" and x[0] is not None and x[0] == m.G + 1) == 1):
+            # Same-iteration placement: run the next (synchronous) operation inside the loop iteration in
+            # which the single deadline of this window fires, right after the timer callback. For the
+            # sequential model this is exactly "adv; op" (expiry first, then the op).
+            live = sorted((h for h in loop._scheduled if not h._cancelled), key=lambda h: h._when)
+            if live:
+                nxt = ops[i + 1]
+                box = {}
+
+                def tie_cb(nxt=nxt, box=box):
+                    try:
+                        real_sync(nxt)
+                    except Exception as e:  # surfaced below as a finding
+                        box["err"] = e
+                    box["ran"] = loop.time()
+                loop.call_at(live[0]._when + 5e-10, tie_cb)
+                skip.add(i + 1)
+                m.G += 1
+                await clock.advance()
+                await vloop.settle()
+                stats["expired"] += m.settle()
+                model_sync(nxt)
+                stats["expired"] += m.settle()
+                ctx.count("tie_ops_same_iteration_as_expiry")
+                if "err" in box:
+                    raise box["err"]
+                if "ran" not in box:
+                    raise RuntimeError("harness: tie callback did not run")
+                pos[:] = [i + 1, nxt]
+                if not compare(("tie:" + nxt[0],) + tuple(nxt[1:]), i + 1):
+                    return None
+                continue
         if k == "wait" or k == "burst":
             for _ in range(step[1] if k == "burst" else 1):
                 tm = ("zero",) if k == "burst" else step[1]
